@@ -1114,7 +1114,7 @@ class Process(StateMachine, persistence.Savable, metaclass=ProcessStateMachineMe
         :param msg: an optional message to set as the status. The current status will be saved in the private
             `_pre_paused_status attribute`, such that it can be restored when the process is played again.
 
-        :return: False if process is already terminated,
+        :return: False if process is already terminated or being killed,
                  True if already paused or pausing,
                  a `CancellableAction` to pause if the process was running steps
         """
@@ -1124,6 +1124,10 @@ class Process(StateMachine, persistence.Savable, metaclass=ProcessStateMachineMe
         if self.paused:
             # Already paused
             return True
+
+        if self._killing is not None:
+            # About to be killed as soon as the current step yields, the kill must not be replaced by a pause
+            return False
 
         if self._pausing is not None:
             # Already pausing
